@@ -233,3 +233,8 @@ func VerifC07_blocks() {
 
 func VerifC07_cache3() { vC07Run(3) }
 func VerifC07_cache4() { vC07Run(4) }
+
+// VerifC02_noTrace: C02's "everything else is as before" seen by the next transaction of the
+// block: calls that write or delete a cacheable entity and then fail, followed by calls that
+// read it through the state context (same histories as VerifC07_cache3, two calls).
+func VerifC02_noTrace() { vC07Run(2) }
